@@ -6,27 +6,67 @@ import vtlib
 from checks import datacheck
 
 META = dict(
-   text='TLC applies every sequence of up to 2 (A=2, composites; thorough: 3) positional read / write requests that start before '
-        'end-of-file (offset < size, length 0..3A+2 resp. 0..total+2, single-buffer and up to 3 iovec elements, every position of a '
-        'misaligned buffer) to the transcribed AlignedFileAdaptor (A in {2,4}, thorough also 8; alignMemory on/off; every initial size '
-        '1..3A+2), FixedSizeLinearFile (unit 1..4, 1..3 files), VariableSizeLinearFile (all size lists up to 3 files of 1..3 bytes) and '
-        'StripeFile (stripe 2, 1..3 files, 1..2 rows) and to one plain reference file, and checks after every request: same return '
-        'value, data, content and size (Transparent), every underlay request of the aligned adaptor has offset and length multiples '
-        'of A - memory too with alignMemory - judged per request (UnderlayAligned), composites clip at the total size and never '
-        'resize a sub-file (Clipped). The real adaptors are run over recording in-memory files on the same scope plus seeded random '
-        'sequences of 3..8 requests (alignment 8..4096, units / stripes up to 8 KiB, 1..5 sub-files, all ten pread/pwrite variants); '
-        'every recorded sequence is replayed on the reference by TLC (return value, data, underlay / sub-file content and size '
-        'after each request, alignment of each underlay request).',
+   text='TLC applies every sequence of positional read / write requests of a small scope - requests start before end-of-file, '
+        'length 0..3A+2 (composites: 0..total+2, i.e. past the end), single-buffer and vectored with up to 3 iovec elements, every '
+        'position of a misaligned buffer - to the transcribed AlignedFileAdaptor (A=2: initial sizes 1..8, 2 requests; A=4: sizes '
+        '1..14, 1 request, and sizes {5,8,9}, 2 requests; alignMemory on/off; thorough: 3 resp. 2 requests and A=8 with sizes 1..26), '
+        'FixedSizeLinearFile (unit 1..4 x 1..3 files), VariableSizeLinearFile (every list of up to 3 sub-files of 1..3 bytes) and '
+        'StripeFile (stripe 2 x 1..3 files x 1..2 rows) (2 requests; thorough: units to 5, sizes to 4, stripes 1/2/4, 3 requests on '
+        'the smaller ones) and to ONE plain reference file, and checks after every request: same return value, data, content and '
+        'size (Transparent); every underlay request of the aligned adaptor has offset and length multiples of A, judged per request, '
+        'and aligned memory when alignMemory is on (UnderlayAligned); composites clip at the total size and never resize a sub-file '
+        '(Clipped). The real adaptors are run over recording in-memory files on that scope (every (size, offset, length) single-buffer, '
+        'a sample of the segmentations) plus seeded random sequences of 3..8 requests (alignment 8..4096, units / stripes up to 8 KiB, '
+        '1..5 sub-files, all ten pread/pwrite variants); TLC replays every recorded sequence on the reference and compares return '
+        'value, data read, content and size of the underlay / of every sub-file after each request, and the alignment of every '
+        'underlay request.',
    note='Requests that start at or after end-of-file are outside the statement and are not generated. The underlay is a plain '
-        'in-memory file that never fails and never returns short except at its end; error paths of the adaptors are not covered. '
-        'Contents are compared as runs (writer, position tag mod 31, length): a byte that lands 31*k positions away from where it '
-        'belongs inside a run of the same writer would not be seen. TLC result holds for the stated scope; larger alignments and '
-        'sizes only through the seeded random sequences.',
+        'in-memory file that never fails and returns short only at its end, so the error paths of the adaptors are not covered. '
+        'Contents are compared as runs (writer, position tag mod 31, length): a byte that sits a multiple of 31 positions away from '
+        'where it belongs, inside a run of the same writer, would not be seen. The TLC result holds for the stated scope; larger '
+        'alignments and sizes only through the seeded random sequences.',
    technique='TLA+ transcription + TLC exhaustive small-scope equivalence with a plain-file reference; trace validation of recorded '
              'request sequences of the real code (TLC replays each on the reference)',
    design='3/C16')
 
 TRACE_MODULE, TRACE_CFG = 'Trace_FileAdaptors', 'Trace_FileAdaptors.cfg'
+
+# Finding met by this check on the pinned tree that is not (yet) listed in known-findings.json.  It is tolerated only with
+# its exact signature (classify() below) and printed as a KNOWN-FINDING line.  DELETE the id here when a fix: commit lands
+# (AlignedAlloc then serves small alignments and the rows simply agree) or when it is entered as open in known-findings.json.
+KNOWN_TEXT = {
+    'C16a': 'new_aligned_file_adaptor(file, alignment 2 or 4, align_memory=true) with its own allocator: every request that needs a '
+            'temporary buffer (unaligned offset / length / buffer) returns -1 where a plain file succeeds, because AlignedAlloc calls '
+            'posix_memalign() with an alignment below sizeof(void*) (EINVAL) (common/io-alloc.h:104, used by fs/aligned-file.cpp:51)',
+}
+PROVISIONAL = {'C16a'}
+TOLERATED = set(PROVISIONAL)     # run()/replay() add the ids listed open for C16 in known-findings.json
+
+
+def classify(row, text):
+    """Known-finding signature (exact); anything else stays a violation."""
+    if 'C16a' not in TOLERATED or row.get('e') != 'Seq' or row.get('ad') != 'aligned':
+        return None
+    if not (row['am'] and row['A'] < 8 and row['alloc'] == 0):
+        return None
+    m = re.search(r'request (\d+): returned -1 where the plain file returns (\d+)', text)
+    if not m:
+        return None
+    k, want = int(m.group(1)), int(m.group(2))
+    if any(int(x) != k for x in re.findall(r'request (\d+):', text)) or k > len(row['ops']):
+        return None
+    o, A = row['ops'][k - 1], row['A']
+    total = sum(o['lens'])
+    needs_buffer = total > 0 and (o['off'] % A or total % A or any(o['ba']) or (o['vec'] and any(l % A for l in o['lens'])))
+    before = row['ops'][k - 2]['after'] if k > 1 else [[1, 0, row['size0']]]
+    # the request failed before anything reached the underlay, and nothing changed
+    if o['ret'] == -1 and o['ul'] == [] and o['after'] == before and needs_buffer and want > 0:
+        return ('C16a', KNOWN_TEXT['C16a'])
+    return None
+
+
+def _tolerated(ctx):
+    TOLERATED.update(f['id'] for f in ctx.kf.get('open', []) if f.get('property') == 'C16' and f.get('id') in KNOWN_TEXT)
 
 # `bin/check C16 --replay <path>`: vtlib.Ctx() empties /verif/out/C16 before replay() is called, and the replay files
 # this check writes live there.  Keep the content of such a file from import time (bin/check imports this module first).
@@ -58,7 +98,8 @@ def run(ctx):
     h = ctx.build_harness('h_fileadaptor')
     trace = f'{ctx.out}/fileadaptor.ndjson'
     ctx.run_harness(h, ['--out', trace, '--seed', ctx.seed, '--tier', t], timeout=600, ok_rcs=(0, 3))
-    ok, n = datacheck.judge(ctx, TRACE_MODULE, TRACE_CFG, trace, what='sequence', chunk=10000, par=8)
+    _tolerated(ctx)
+    ok, n = datacheck.judge(ctx, TRACE_MODULE, TRACE_CFG, trace, classify=classify, what='sequence', chunk=10000, par=8)
     rows = vtlib.read_ndjson(trace)
     seqs = [x for x in rows if x.get('e') == 'Seq']
     nreq = sum(len(x['ops']) for x in seqs)
@@ -72,6 +113,7 @@ def run(ctx):
     ctx.extra.update({'sequences_executed_on_real_code': n, 'sequences_agreeing_with_reference': ok,
                       'requests_executed_on_real_code': nreq, 'sequences_per_adaptor': kinds, 'api_variants': variants,
                       'transcription_drift_sequences': _drift(ctx), 'exhaustive': True,
+                      'known_finding_sequences': len(ctx.known_hits),
                       'explanation': 'states = reachable (configuration, file content) states of the request sequences in scope, '
                                      'transitions = (state, request) cases each judged against the plain file; traces = request '
                                      'sequences executed on the real adaptors and replayed on the reference by TLC; '
@@ -92,5 +134,13 @@ def replay(ctx, path):
         path = ctx.save_replay(os.path.basename(path), _STASH[1])
     if not os.path.exists(path):
         raise vtlib.InfraError(f'replay file not found: {path}')
-    datacheck.judge(ctx, TRACE_MODULE, TRACE_CFG, path, what='sequence', chunk=10000, par=8)
+    if os.path.basename(path).startswith('mc_counterexample'):       # a violation of the specification itself: model-check again
+        r = ctx.mc('FileAdaptors', f'MC_FileAdaptors_{ctx.tier}.cfg', timeout=1500)
+        if r['inv_violated'] or r['rc'] != 0:
+            ctx.violation(f'specification FileAdaptors violates {r["inv_violated"]}', ctx.save_replay('mc_counterexample.txt', r['out'][-8000:]))
+        return 1 if ctx.violations else 0
+    _tolerated(ctx)
+    datacheck.judge(ctx, TRACE_MODULE, TRACE_CFG, path, classify=classify, what='sequence', chunk=10000, par=8)
+    for fid in sorted({f for f, _ in ctx.known_hits}):
+        print(f'KNOWN-FINDING: property={ctx.pid} {fid}: {KNOWN_TEXT[fid]}', flush=True)
     return 1 if ctx.violations else 0
